@@ -47,3 +47,8 @@ def handleValue (j : Json) : Except String Json := do
   pure (Json.arr (vals.map ratJson).toArray)
 
 end Qv.Drv
+
+namespace Qv.Drv
+def handlersC05 : List (String × (Lean.Json → Except String Lean.Json)) :=
+  [("expr", handleExpr), ("value", handleValue)]
+end Qv.Drv
